@@ -57,6 +57,11 @@ class MeshTet2(MeshTet1):
         doflocs[:, D] /= np.linalg.norm(doflocs[:, D], axis=0)
         return replace(M, doflocs=doflocs)
 
+    @classmethod
+    def init_refdom(cls):
+        # the reference cell has no mid-side nodes: the first-order mesh
+        return MeshTet1.init_refdom()
+
     def _uniform(self):
         # the children of a tetrahedron are not stored in whole-mesh blocks:
         # let MeshTet1 propagate the named subdomains
